@@ -163,47 +163,7 @@ func checkC10(p *Prog, r *Report) {
 	// D2f the bytes a store hands out are not modified in place (storeget.go)
 	checkStoreGetNotModified(p, r, "C10")
 
-	// D2c start-up writes nothing: an sdk.Context (the only way to reach a keeper) or a raw committed store is obtained only
-	// by block processing (baseapp supplies the context) and by the export command. Anything written through a context made
-	// at start-up goes straight into the committed store's working set, outside any block.
-	ctxMakers := []string{"baseapp.BaseApp).NewUncachedContext", "baseapp.BaseApp).NewContext", "types.NewContext",
-		"CommitMultiStore).GetKVStore", "CommitMultiStore).GetCommitKVStore", "CommitMultiStore).GetCommitStore", "CommitMultiStore).GetStore",
-		"MultiStore).GetKVStore", "MultiStore).GetStore"}
-	allowedCtx := map[string]string{
-		"(*app.App).ExportAppStateAndValidators": "genesis export works on a throw-away context of the latest version",
-	}
-	nCtx := 0
-	for _, fn := range p.ModFuncs {
-		if InPkgs(fn, "types/testsuite") {
-			continue
-		}
-		for _, cs := range callSites(fn) {
-			hit := ""
-			for _, m := range ctxMakers {
-				if strings.HasSuffix(cs.Name, m) {
-					hit = m
-				}
-			}
-			if hit == "" || strings.HasSuffix(cs.Name, "types.Context).MultiStore") {
-				continue
-			}
-			// ctx.MultiStore().GetKVStore(key) inside block processing is the store of the supplied context — not a new gateway
-			if strings.HasPrefix(hit, "MultiStore)") {
-				if c, ok := cs.Instr.Common().Value.(*ssa.Call); ok && strings.HasSuffix(calleeName(&c.Call), "types.Context).MultiStore") {
-					continue
-				}
-			}
-			nCtx++
-			key := kp("STATE", "context-created:"+FuncName(fn)+"→"+hit)
-			if why, ok := allowedCtx[FuncName(fn)]; ok {
-				r.OK(key, "only block processing and genesis export obtain a context or a committed store", p.Pos(cs.Instr.Pos()), why)
-			} else {
-				r.Fail(key, "only block processing and genesis export obtain a context or a committed store", p.Pos(cs.Instr.Pos()),
-					fmt.Sprintf("%s calls %s: state written through it bypasses block processing (it is neither part of a block nor rolled back with one), so a node that ran this code and one that did not disagree", FuncName(fn), cs.Name))
-			}
-		}
-	}
-	r.Floor("control:context-creation-sites", nCtx, 1)
+	checkStartupCreatesNoContext(p, r, kp)
 
 	// D2d the only store loader the application installs is the SDK's UpgradeStoreLoader (which applies store changes exactly at
 	// the plan height and is the default loader at every other start): a home-made loader decides what a restart loads
@@ -364,4 +324,50 @@ func checkPersistentStoresOnly(p *Prog, r *Report, kp func(string, string) strin
 	r.OK(kp("WIRE", "non-persistent-keys#scan"), "module state lives in committed KV stores only", "app/, x/*",
 		fmt.Sprintf("%d arguments of calls into the module's own packages inspected: none is a *MemoryStoreKey or *TransientStoreKey (violations, if any, are listed separately)", nArgs))
 
+}
+
+
+// checkStartupCreatesNoContext (C10-D2c, shared with C19: a restart around the upgrade height runs the start-up code again).
+func checkStartupCreatesNoContext(p *Prog, r *Report, kp func(string, string) string) {
+	// D2c start-up writes nothing: an sdk.Context (the only way to reach a keeper) or a raw committed store is obtained only
+	// by block processing (baseapp supplies the context) and by the export command. Anything written through a context made
+	// at start-up goes straight into the committed store's working set, outside any block.
+	ctxMakers := []string{"baseapp.BaseApp).NewUncachedContext", "baseapp.BaseApp).NewContext", "types.NewContext",
+		"CommitMultiStore).GetKVStore", "CommitMultiStore).GetCommitKVStore", "CommitMultiStore).GetCommitStore", "CommitMultiStore).GetStore",
+		"MultiStore).GetKVStore", "MultiStore).GetStore"}
+	allowedCtx := map[string]string{
+		"(*app.App).ExportAppStateAndValidators": "genesis export works on a throw-away context of the latest version",
+	}
+	nCtx := 0
+	for _, fn := range p.ModFuncs {
+		if InPkgs(fn, "types/testsuite") {
+			continue
+		}
+		for _, cs := range callSites(fn) {
+			hit := ""
+			for _, m := range ctxMakers {
+				if strings.HasSuffix(cs.Name, m) {
+					hit = m
+				}
+			}
+			if hit == "" || strings.HasSuffix(cs.Name, "types.Context).MultiStore") {
+				continue
+			}
+			// ctx.MultiStore().GetKVStore(key) inside block processing is the store of the supplied context — not a new gateway
+			if strings.HasPrefix(hit, "MultiStore)") {
+				if c, ok := cs.Instr.Common().Value.(*ssa.Call); ok && strings.HasSuffix(calleeName(&c.Call), "types.Context).MultiStore") {
+					continue
+				}
+			}
+			nCtx++
+			key := kp("STATE", "context-created:"+FuncName(fn)+"→"+hit)
+			if why, ok := allowedCtx[FuncName(fn)]; ok {
+				r.OK(key, "only block processing and genesis export obtain a context or a committed store", p.Pos(cs.Instr.Pos()), why)
+			} else {
+				r.Fail(key, "only block processing and genesis export obtain a context or a committed store", p.Pos(cs.Instr.Pos()),
+					fmt.Sprintf("%s calls %s: state written through it bypasses block processing (it is neither part of a block nor rolled back with one), so a node that ran this code and one that did not disagree", FuncName(fn), cs.Name))
+			}
+		}
+	}
+	r.Floor("control:context-creation-sites", nCtx, 1)
 }
